@@ -589,6 +589,8 @@ class Executor:
                 return mk_int(ty, v.v)
             if isinstance(v, (Ref, SliceRef, FnItem)):
                 return v
+            if kind == 'Subtype':
+                return v         # same run-time representation (lifetime / higher-ranked subtyping only)
             if hasattr(v, 'as_ptr'):
                 return v.as_ptr()
             raise Unsupported('cast %s of %r to %s' % (kind, v, ty))
